@@ -292,6 +292,10 @@ func vfC05Scenarios(thorough bool) []*vfGWScenario {
 			"holdy:outbound-opened:a", "rely:outbound-opened:a", "inreset:a", "inopen:a", "sub:a:t", "disc:a", "conn:a", "outreset:a"})
 		out[len(out)-1].Depth = d + 1 // the shortest interesting interleavings need arm, close, reopen, re-announce, release
 	}
+	// announcements of a peer whose score is below the graylist threshold: its payload and control traffic are
+	// ignored, its subscription state is still tracked
+	mk("gossip-graylisted", "gossip", 0, nil, []string{"conn:a", "conn:b", "join:t"}, []string{"score:a:-5", "score:a:0", "sub:a:t", "unsub:a:t", "sub:a:u", "sub:b:t", "disc:a", "conn:a", "hb"})
+	out[len(out)-1].Cfg.Scoring = true
 	mk("gossip-fanoutonly", "gossip", 0, map[string]string{"fanout_only": "t"}, []string{"conn:a"}, []string{"join:t", "leave:t", "relay:t", "join:u", "leave:u", "conn:b", "disc:a", "lpub:t:p1", "hb"})
 	return out
 }
